@@ -201,7 +201,7 @@ Proof.
     - rewrite (model_at_set_same _ _ _ _ Hmodels _ Hx), Hx. reflexivity.
     - rewrite (model_at_set_other _ _ _ _ _ Hmodels Hne). reflexivity. }
   (* the readings of the two new nodes *)
-  destruct Hse as (Hsmode & Hsval).
+  destruct Hse as (Hsmode & Hsref & Hsval).
   assert (Hcd_s : cdata_of T snode = Some (DString item)).
   { unfold cdata_of, character_data. cbn [snode n_content n_type]. rewrite Hsmode. cbn. reflexivity. }
   assert (Hsc_c : short_child T w' cnode = Some snode).
@@ -247,7 +247,7 @@ Proof.
     intros j nj Hj Hnm. destruct (Holdnew _ _ Hj) as [Ho|[->| ->]].
     + eapply (shorttyped_old T w w' self c n k); eauto.
     + rewrite Hc' in Hj. injection Hj as <-. cbn in Hnm. contradiction.
-    + rewrite Hs' in Hj. injection Hj as <-. cbn [snode n_type]. split; assumption.
+    + rewrite Hs' in Hj. injection Hj as <-. cbn [snode n_type]. split; [exact Hsmode|]. split; [exact Hsref|exact Hsval].
   - (* SlashFree *)
     intros j nj s0 Hj Hnm Hcd. destruct (Holdnew _ _ Hj) as [Ho|[->| ->]].
     + eapply (slashfree_old T w w' self c n k); eauto.
@@ -316,7 +316,7 @@ Proof.
     - rewrite Hn in Hn2. injection Hn2 as <-.
       pose proof (tk_short _ _ TK _ _ _ _ Hfs) as Hse.
       assert (Hitem : ~ In 47 item).
-      { destruct Hse as (_ & Hval). destruct (Hval _ _ _ Hcs Hck) as (s0 & [= <-] & Hs0). exact Hs0. }
+      { destruct Hse as (_ & _ & Hval). destruct (Hval _ _ _ Hcs Hck) as (s0 & [= <-] & Hs0). exact Hs0. }
       assert (Hname : name <> SHORTN).
       { intros ->. destruct (tk_short _ _ TK _ _ _ _ Hfind) as (Hc & _). contradiction. }
       assert (Hpp : SpecPath T w m h pp).
